@@ -82,11 +82,20 @@ pub struct Case {
     /// index into NAMINGS
     #[serde(default)]
     pub naming: usize,
+    /// node whose name the configuration maps to `string` (type_mappings): it is then no serde type
+    /// of the surface any more -- neither it nor what only its fields mention is declared
+    #[serde(default)]
+    pub mapped: Option<usize>,
 }
 
 impl Case {
     pub fn name(&self, i: usize) -> String {
-        NAMINGS[self.naming % NAMINGS.len()][i % 4].to_string()
+        // (the plain scheme serves graphs of any size; the others have four names)
+        if self.naming % NAMINGS.len() == 0 || i >= 4 {
+            format!("N{}", i)
+        } else {
+            NAMINGS[self.naming % NAMINGS.len()][i].to_string()
+        }
     }
     pub fn edges(&self) -> Vec<(usize, usize)> {
         let mut v = vec![];
@@ -183,6 +192,9 @@ impl Case {
         if self.root != Root::ReturnErr {
             let mut stack = vec![0usize];
             while let Some(u) = stack.pop() {
+                if Some(u) == self.mapped {
+                    continue;
+                }
                 if reach.insert(u) {
                     for (a, b) in self.edges() {
                         if a == u {
@@ -219,7 +231,11 @@ pub fn observe(files: &std::collections::BTreeMap<String, String>, zod: bool) ->
 }
 
 pub fn eval(case: &Case) -> (Vec<Violation>, bool, Option<String>) {
-    let run = run_lib_default(&case.project(), &Cfg::mode(case.zod));
+    let mut cfg = Cfg::mode(case.zod);
+    if let Some(k) = case.mapped {
+        cfg.type_mappings = vec![(case.name(k), "string".into())];
+    }
+    let run = run_lib_default(&case.project(), &cfg);
     if !run.ok() {
         return (vec![mk(case, "run-failed", run.status_string(), &BTreeSet::new())], false, None);
     }
@@ -265,6 +281,7 @@ fn mk(case: &Case, class: &str, detail: String, _names: &BTreeSet<String>) -> Vi
     .field("root", format!("{:?}", case.root))
     .field("contexts", ctxs.into_iter().collect::<Vec<_>>().join(" + "))
     .field("mode", if case.zod { "zod" } else { "none" })
+    .field("mapped", if case.mapped.is_some() { "yes" } else { "no" })
     .rank((case.n * 100 + case.mask.count_ones() as usize * 10 + case.layout) as u64)
 }
 
@@ -302,11 +319,11 @@ pub fn run(tier: Tier) -> CheckResult {
                     if tier == Tier::Quick && zod && (gi + ctx) % 2 == 0 {
                         continue;
                     }
-                    cases.push(Case { n: *n, mask: *mask, root, ctx, deviate: None, layout, derive_style: if (gi + ctx) % 2 == 0 { 0 } else { (gi + ctx + root as usize) % DERIVE_STYLES.len() }, zod, naming: 0 });
+                    cases.push(Case { n: *n, mask: *mask, root, ctx, deviate: None, layout, derive_style: if (gi + ctx) % 2 == 0 { 0 } else { (gi + ctx + root as usize) % DERIVE_STYLES.len() }, zod, naming: 0, mapped: None });
                     // the other naming schemes on the direct and the Option context
                     if ctx <= 1 && *n <= 3 {
                         for naming in 1..NAMINGS.len() {
-                            cases.push(Case { n: *n, mask: *mask, root, ctx, deviate: None, layout, derive_style: 0, zod, naming });
+                            cases.push(Case { n: *n, mask: *mask, root, ctx, deviate: None, layout, derive_style: 0, zod, naming, mapped: None });
                         }
                     }
                 }
@@ -316,7 +333,26 @@ pub fn run(tier: Tier) -> CheckResult {
             if n_edges >= 2 && *n <= 3 && (tier == Tier::Thorough || gi % 4 == 0) {
                 for e in 0..n_edges {
                     for c in 1..CONTEXTS.len() {
-                        cases.push(Case { n: *n, mask: *mask, root, ctx: 0, deviate: Some((e, c)), layout: (gi + e) % 3, derive_style: (gi + e + c) % DERIVE_STYLES.len(), zod: (gi + e + c) % 2 == 0, naming: 0 });
+                        cases.push(Case { n: *n, mask: *mask, root, ctx: 0, deviate: Some((e, c)), layout: (gi + e) % 3, derive_style: (gi + e + c) % DERIVE_STYLES.len(), zod: (gi + e + c) % 2 == 0, naming: 0, mapped: None });
+                    }
+                }
+            }
+        }
+    }
+    // one node mapped to a TypeScript type by configuration: every graph of up to 3 nodes with an
+    // edge, every node, the direct and two wrapped contexts, parameter / return / event roots
+    for (gi, (n, mask)) in graphs.iter().enumerate() {
+        if *n > 3 || *mask == 0 {
+            continue;
+        }
+        for k in 0..*n {
+            for root in [Root::Param, Root::ReturnOk, Root::Event] {
+                for ctx in [0usize, 1, 2] {
+                    if tier == Tier::Quick && (gi + k + ctx + root as usize) % 3 != 0 {
+                        continue;
+                    }
+                    for zod in [false, true] {
+                        cases.push(Case { n: *n, mask: *mask, root, ctx, deviate: None, layout: (gi + k + ctx) % 3, derive_style: 0, zod, naming: if (gi + k) % 4 == 0 { 1 } else { 0 }, mapped: Some(k) });
                     }
                 }
             }
@@ -345,7 +381,7 @@ pub fn run(tier: Tier) -> CheckResult {
     all_v.sort_by_key(|v| (v.rank, v.key()));
     let mut seen = BTreeSet::new();
     for v in all_v {
-        let k = format!("{}|{}|{}|{}", v.class, v.fields["root"], v.fields["contexts"], v.fields["mode"]);
+        let k = format!("{}|{}|{}|{}|{}", v.class, v.fields["root"], v.fields["contexts"], v.fields["mode"], v.fields["mapped"]);
         if seen.insert(k) {
             res.violations.push(v);
         } else {
